@@ -164,12 +164,12 @@ def ref_pass(exe, items):
     res = []
     for o in out:
         o = vlib.split_impl(o)[0]
-        m = re.fullmatch(r'\(ref ok (x[0-9a-f]*) \(state (\d+) (\(d.*\))\) (\(ids[ 0-9]*\)) (-?\d+) (\(sizes[ 0-9]*\))\)', o)
+        m = re.fullmatch(r'\(ref ok (x[0-9a-f]*) \(state (\d+) (\(d.*\))\) (\(ids[ 0-9]*\)) (-?\d+) (\(sizes[ 0-9]*\)) (-|\d+)\)', o)
         if not m or int(m.group(5)) < 0:
             res.append(None)
             continue
         res.append({'full': m.group(1), 'max_id': m.group(2), 'trailer': m.group(3), 'ids': m.group(4), 'cut': m.group(5),
-                    'sizes': m.group(6)})
+                    'sizes': m.group(6), 'top': m.group(7)})
     return res
 
 
@@ -198,7 +198,7 @@ def path_positions(rng, total, cut, quick):
 def probe_devices(exe, prev):
     """which failing devices this machine offers to the harness: {'full': bool, 'limit': bool}"""
     doc = base_doc()[0]
-    mk = lambda job: L('case', L('cfg', 'table', 'plain', '5', L('d'), L('ids')), doc, 'x', prev, '0', L('chunks'), job)
+    mk = lambda job: L('case', L('cfg', 'table', 'plain', '5', L('d'), L('ids'), '5'), doc, 'x', prev, '0', L('chunks'), job)
     out = vlib.run_lines(exe, [mk(L('path', 'full', L('sizes'))), mk(L('path', L('limit', '10'), L('sizes')))], timeout=120)
     ok = [not vlib.split_impl(o)[0].startswith('(nodevice') for o in out]
     return {'full': ok[0], 'limit': ok[1]}
@@ -244,7 +244,7 @@ def gen_cases(rng, tier):
         if ref is None:
             continue
         total = (len(ref['full']) - 1) // 2
-        cfg = L('cfg', m, k, ref['max_id'], ref['trailer'], ref['ids'])
+        cfg = L('cfg', m, k, ref['max_id'], ref['trailer'], ref['ids'], ref['top'])
         full_parts = parts(ref['full'])
         def case(job, ch=None):
             return L('case', cfg, doc[0], prev, full_parts, ref['cut'], ch or chunks(rng), job, doc[1])
@@ -312,6 +312,8 @@ SPEC = {
                     '(C01/C03) and is evaluated on the implementation for every case instead',
     'model_shards': 16,
     'impl_shards': 8,
+    'model_timeout': 3600,   # thorough tier on a busy machine (quick: a few seconds per shard)
+    'impl_timeout': 3600,
 }
 
 
